@@ -590,7 +590,7 @@ func (fr *Frame) havocItem(m string, ctx *EvalCtx, st *State) {
 		// cells(T): all cells of Go type T
 		g := vc.parseType(m[6:len(m)-1], ctx.pkg)
 		set := map[string]bool{}
-		fr.typeCells(g.Go, set)
+		fr.typeCells(goTypeOf(g), set)
 		for _, k := range sortedKeys(set) {
 			vc.havocKey(st, k, vc.compSort[k])
 		}
@@ -600,7 +600,7 @@ func (fr *Frame) havocItem(m string, ctx *EvalCtx, st *State) {
 		// new(T): cells of type T allocated by the callee; existing cells are unchanged
 		g := vc.parseType(m[4:len(m)-1], ctx.pkg)
 		set := map[string]bool{}
-		fr.typeCells(g.Go, set)
+		fr.typeCells(goTypeOf(g), set)
 		for _, k := range sortedKeys(set) {
 			h0 := vc.comp(st, k, vc.compSort[k])
 			vc.havocKey(st, k, vc.compSort[k])
@@ -849,12 +849,12 @@ func (fr *Frame) callModifies(c *ssa.CallCommon, set map[string]bool) {
 			}
 			if strings.HasPrefix(m, "cells(") {
 				g := vc.parseType(m[6:len(m)-1], vc.eng.pkgTypes("spine"))
-				fr.typeCells(g.Go, set)
+				fr.typeCells(goTypeOf(g), set)
 				continue
 			}
 			if strings.HasPrefix(m, "new(") {
 				g := vc.parseType(m[4:len(m)-1], vc.eng.pkgTypes("spine"))
-				fr.typeCells(g.Go, set)
+				fr.typeCells(goTypeOf(g), set)
 				continue
 			}
 			if strings.HasPrefix(m, "map(") {
